@@ -74,7 +74,8 @@ theorem kindOf_stripRule (r : PathRule) : kindOf (stripRule r) = kindOf r := rfl
 
 theorem candidate_stripRule (path : Path) (r : PathRule) : candidate path (stripRule r) = candidate path r := rfl
 
-theorem rulesOf_strip (ps : List (Option Policy)) : rulesOf (ps.map stripPolicy) = (rulesOf ps).map stripRule := by
+theorem rulesOf_strip (now : Int) (ps : List (Option Policy)) :
+    rulesOf now (ps.map stripPolicy) = (rulesOf now ps).map stripRule := by
   induction ps with
   | nil => rfl
   | cons p ps ih =>
@@ -82,6 +83,9 @@ theorem rulesOf_strip (ps : List (Option Policy)) : rulesOf (ps.map stripPolicy)
     | none => simpa [rulesOf, stripPolicy] using ih
     | some p =>
       simp only [List.map_cons, stripPolicy, Option.map_some, rulesOf_cons_some, List.map_append, ih]
+      congr 1
+      rw [List.filter_map]
+      rfl
 
 theorem hasRoot_strip (ps : List (Option Policy)) : hasRoot (ps.map stripPolicy) = hasRoot ps := by
   unfold hasRoot
@@ -359,18 +363,20 @@ theorem parseRule_wf (r : SrcRule) (pr : PathRule) (h : parseRule r = .ok pr) : 
   obtain ⟨caps, _, hp⟩ := parseRule_perms r pr h
   exact parsePerms_wf r caps pr.perms hp
 
-theorem parseRules_wf (rs : List SrcRule) (prs : List PathRule) (h : parseRules rs = .ok prs) :
-    ∀ pr ∈ prs, WF pr.perms := by
+theorem parseRules_wf (parseNow : Int) (rs : List SrcRule) (prs : List PathRule)
+    (h : parseRules parseNow rs = .ok prs) : ∀ pr ∈ prs, WF pr.perms := by
   induction rs generalizing prs with
   | nil => simp [parseRules] at h; subst h; simp
   | cons r rs ih =>
     unfold parseRules at h
+    split at h
+    · exact ih prs h
     cases h1 : parseRule r with
     | error e => rw [h1] at h; simp at h
     | ok pr =>
       rw [h1] at h
       simp only at h
-      cases h2 : parseRules rs with
+      cases h2 : parseRules parseNow rs with
       | error e => rw [h2] at h; simp at h
       | ok prs' =>
         rw [h2] at h
@@ -382,21 +388,21 @@ theorem parseRules_wf (rs : List SrcRule) (prs : List PathRule) (h : parseRules 
         · exact ih prs' h2 q hq
 
 /-- a policy is the output of `parsePaths` for some stanza list -/
-def Parsed (p : Policy) : Prop := ∃ rs, parsePolicy p.name rs = .ok p
+def Parsed (p : Policy) : Prop := ∃ parseNow rs, parsePolicy parseNow p.name rs = .ok p
 
 theorem parsed_wf (p : Policy) (h : Parsed p) : ∀ pr ∈ p.paths, WF pr.perms := by
-  obtain ⟨rs, h⟩ := h
+  obtain ⟨parseNow, rs, h⟩ := h
   unfold parsePolicy at h
-  cases h1 : parseRules rs with
+  cases h1 : parseRules parseNow rs with
   | error e => rw [h1] at h; simp at h
   | ok prs =>
     rw [h1] at h
     simp only [Except.ok.injEq] at h
     rw [← h]
-    exact parseRules_wf rs prs h1
+    exact parseRules_wf parseNow rs prs h1
 
-theorem wfRules_of_parsed (ps : List (Option Policy)) (h : ∀ p, some p ∈ ps → Parsed p) :
-    wfRules (rulesOf ps) = true := by
+theorem wfRules_of_parsed (now : Int) (ps : List (Option Policy)) (h : ∀ p, some p ∈ ps → Parsed p) :
+    wfRules (rulesOf now ps) = true := by
   unfold wfRules rulesOf
   rw [List.all_eq_true]
   intro r hr
@@ -404,7 +410,7 @@ theorem wfRules_of_parsed (ps : List (Option Policy)) (h : ∀ p, some p ∈ ps 
   obtain ⟨p, hp, hrp⟩ := hr
   cases p with
   | none => simp at hrp
-  | some p => exact (wfPerms_iff _).mpr (parsed_wf p (h p hp) r hrp)
+  | some p => exact (wfPerms_iff _).mpr (parsed_wf p (h p hp) r (List.mem_filter.mp hrp).1)
 
 /-- re-parsing gives the same stanzas: a stanza whose parse could depend on the iteration order is refused -/
 theorem stanzaStable_true (r : SrcRule) : stanzaStable r = true := by
@@ -604,5 +610,61 @@ theorem parseRule_reordered (r r' : SrcRule) (h : Reordered r r') :
         cases h2 : parsePerms r' caps with
         | error e' => rw [h1, h2] at this; exact absurd this id
         | ok p' => rw [h1, h2] at this; exact ⟨rfl, rfl, rfl, this⟩
+
+/-! ### stanza expiration -/
+
+theorem rulesOf_dropExpired (now : Int) (ps : List (Option Policy)) :
+    rulesOf now (ps.map (dropExpired now)) = rulesOf now ps := by
+  induction ps with
+  | nil => rfl
+  | cons p ps ih =>
+    cases p with
+    | none => simpa [rulesOf, dropExpired] using ih
+    | some p =>
+      simp only [List.map_cons, dropExpired, Option.map_some, rulesOf_cons_some, ih, List.filter_filter, Bool.and_self]
+
+theorem hasRoot_dropExpired (now : Int) (ps : List (Option Policy)) : hasRoot (ps.map (dropExpired now)) = hasRoot ps := by
+  unfold hasRoot
+  rw [List.any_map]
+  congr 1
+  funext p
+  cases p <;> rfl
+
+theorem attachable_dropExpired (now : Int) (ps : List (Option Policy)) :
+    attachable (ps.map (dropExpired now)) = attachable ps := by
+  unfold attachable
+  rw [List.all_map, List.length_map]
+  congr 1
+  funext p
+  cases p <;> rfl
+
+theorem newACL_dropExpired (now : Int) (ps : List (Option Policy)) :
+    newACL now (ps.map (dropExpired now)) = newACL now ps := by
+  rw [newACL_eq, newACL_eq, rulesOf_dropExpired, hasRoot_dropExpired, attachable_dropExpired]
+
+theorem expiredAt_mono (now now' : Int) (h : now ≤ now') (e : Option Int) (he : expiredAt now e = true) :
+    expiredAt now' e = true := by
+  cases e with
+  | none => simp [expiredAt] at he
+  | some t => simp only [expiredAt, decide_eq_true_eq] at he ⊢; omega
+
+theorem mem_rulesOf_mono (now now' : Int) (h : now ≤ now') (ps : List (Option Policy)) (r : PathRule)
+    (hr : r ∈ rulesOf now' ps) : r ∈ rulesOf now ps := by
+  unfold rulesOf at hr ⊢
+  rw [List.mem_flatMap] at hr ⊢
+  obtain ⟨p, hp, hrp⟩ := hr
+  refine ⟨p, hp, ?_⟩
+  cases p with
+  | none => simp at hrp
+  | some p =>
+    simp only [List.mem_filter] at hrp ⊢
+    refine ⟨hrp.1, ?_⟩
+    unfold liveAt at *
+    cases hx : expiredAt now r.expiration with
+    | false => rfl
+    | true =>
+      have := expiredAt_mono now now' h _ hx
+      rw [this] at hrp
+      exact absurd hrp.2 (by decide)
 
 end Obao.ACLProofs
